@@ -209,6 +209,52 @@ func FuzzMetadataKV(f *testing.F) {
 	})
 }
 
+// FuzzPrefixedBy: a prefix and keys of arbitrary text in maps of each type; the key set always contains the
+// two free keys, and (by the low bits of kind) the prefix itself / the prefix followed by the first key.
+func FuzzPrefixedBy(f *testing.F) {
+	fuzzInit()
+	f.Add("backOff", "backOffPolicy", "other", "exponential", uint8(0))
+	f.Add("p", "p", "", "3", uint8(7))
+	f.Fuzz(func(t *testing.T, prefix, k1, k2, v string, kind uint8) {
+		if len(prefix)+len(k1)+len(k2)+len(v) > 4096 {
+			return
+		}
+		keys := []string{k1, k2}
+		if kind&4 != 0 {
+			keys = append(keys, prefix+k1)
+		}
+		if kind&8 != 0 {
+			keys = append(keys, prefix)
+		}
+		m := VS{T: []string{"ms", "m", "mi", "mnamed"}[int(kind)%4]}
+		for _, k := range keys {
+			m.K = append(m.K, sv(k))
+			m.L = append(m.L, sv(v))
+		}
+		fuzzDo(mk("config-prefixedby", "in", js(m), "prefix", hx([]byte(prefix))))
+		fuzzDo(mk("retry-decodeconfigwithprefix", "in", js(m), "prefix", hx([]byte(prefix)), "init", "zero"))
+		fuzzDo(mk("retry-decodeconfig", "in", js(m), "init", "default"))
+	})
+}
+
+// FuzzConfigStrings: the string-valued entry points of retry/ and utils/.
+func FuzzConfigStrings(f *testing.F) {
+	fuzzInit()
+	f.Add("exponential", int64(1))
+	f.Add(" Yes ", int64(-1))
+	f.Fuzz(func(t *testing.T, s string, n int64) {
+		if len(s) > 4096 {
+			return
+		}
+		fuzzDo(mk("retry-policytype", "v", hx([]byte(s)), "n", strconv.FormatInt(n, 10)))
+		fuzzDo(mk("utils-istruthy", "s", hx([]byte(s))))
+		fuzzDo(mk("utils-isyaml", "s", hx([]byte(s))))
+		fuzzDo(mk("utils-getenvduration", "v", hx([]byte(s)), "def", "1", "min", strconv.FormatInt(n, 10), "max", strconv.FormatInt(-n, 10)))
+		fuzzDo(mk("retry-decodeconfig", "in", js(VS{T: "ms", K: []VS{sv("policy"), sv("duration"), sv("maxRetries")}, L: []VS{sv(s), sv(s), sv(s)}}), "init", "zero"))
+		fuzzDo(mk("metadata-properties", "in", js(VS{T: "ms", K: []VS{sv(s), sv("dur")}, L: []VS{sv(s), sv(s)}}), "keys", hx([]byte(s)), "target", "meta"))
+	})
+}
+
 func FuzzUppercase(f *testing.F) {
 	fuzzInit()
 	f.Add([]byte("héllo \xff\xe2\x82"), uint8(2))
